@@ -361,7 +361,7 @@ func driveRoundTrip(c *driverCtx, prop string) error {
 	}
 	// dedicated minimal witnesses (one feature each, including every known finding)
 	for _, wt := range witnessCases() {
-		if prop == "C02" && (wt.name == "round-number-collections" || wt.name == "large-payloads") {
+		if prop == "C02" && (wt.name == "round-number-collections" || wt.name == "round-number-list" || wt.name == "large-payloads") {
 			// decoding payloads of tens of thousands of items in TLC takes the judge hours; the same files are judged by value under C01
 			continue
 		}
